@@ -52,6 +52,10 @@ void t1(void) { enq(0); int v = deq(0); rt_gset(59, v + 3); }
 void t2(void) { enq(1); deq(1); }
 #define NDQ 2
 #endif
+#if SCEN == 3     /* one thread: sequential behaviour of the real code under the same harness (also the reachability baseline) */
+void t1(void) { enq(0); enq(1); int a = deq(0); int b = deq(1); int c = deq(2); rt_gset(59, (a == 0 && b == 1 && c == H_NONE) ? 4 : 9); }
+#define NDQ 3
+#endif
 void epilogue(void) {
   int left = 0; for (int i = 0; i < H_NN; i++) if (h_istarted(i) && !h_removed(i)) left = 1;
   if (left) rt_assert(destroy_seq() != 0, "destroy refuses a non-empty queue");
@@ -63,6 +67,9 @@ void epilogue(void) {
   rt_cover(np >= 1, "a dummy node was retired through call_rcu");
 #if SCEN == 2
   rt_cover(rt_gget(59) == 1 + 3, "thread 1 dequeued the other thread's node");
+#endif
+#if SCEN == 3
+  rt_assert(rt_gget(59) == 4, "single thread: enqueue a, b; dequeue returns a, b, then NULL");
 #endif
   rt_assert(destroy_seq() == 0, "destroy succeeds on an empty queue");
   rt_assert(rt_gget(61) == (1u << rt_gget(63)) - 1, "every dummy node ever allocated has been freed exactly once (retired ones by their callback, the last by destroy)");
